@@ -1727,7 +1727,9 @@ func buildValidations(projected *expr.AttributeExpr, scope *codegen.NameScope) [
 							// use explicitly specified view (if any) for the attribute,
 							// otherwise use default
 							vw := ""
-							if v, ok := vatt.Meta.Last(expr.ViewMetaKey); ok && v != expr.DefaultView {
+							if v, ok := vatt.Meta.Last(expr.ViewMetaKey); ok && v != expr.DefaultView && rt.View(v) != nil {
+								// a nested type that is already the projection on
+								// that view only has a default view (and validator)
 								vw = v
 							}
 							fields = append(fields, map[string]any{
@@ -1851,7 +1853,11 @@ func buildConstructorCode(src, tgt *expr.AttributeExpr, sourceVar, targetVar str
 			if vatt := rt.View(view).AttributeExpr.Find(nat.Name); vatt != nil {
 				if attv, ok := vatt.Meta.Last(expr.ViewMetaKey); ok && attv != expr.DefaultView {
 					// view is explicitly set for the result type on the attribute
-					v = attv
+					// (a nested type that is already the projection on that view
+					// only has a default view)
+					if nrt, ok := nat.Attribute.Type.(*expr.ResultTypeExpr); !ok || nrt.View(attv) != nil {
+						v = attv
+					}
 				}
 			}
 			finit += codegen.Goify(v, true)
